@@ -93,14 +93,37 @@ def windows(text, rng, count, lines=30):
     return out
 
 
+LINE_TEMPLATES = ["def f(a, b=1):", "async def g(x):", "class K(Base):", "class K:", "def f(): return 1", 'def f(): """doc"""', "x = 1",
+                  "y = [1,", "     2]", "z = {'a': (1, 2)}", "@decorator(arg)", "@plain", "return x", "pass", "if x:", "else:", "for i in y:",
+                  "with open(p) as f:", "try:", "except E as e:", "lambda q: q", "print('a:b')", '"' * 3, "'" * 3, '"' * 3 + "one-line doc" + '"' * 3,
+                  "s = 'it''s'", "a: int = 5", "a = 1; b = 2", "# only a comment", "x = 1  # trailing", "\\", "def h(", "    p,", "):", "",
+                  "import os", "from a import (b,", "    c)", "while x: pass", "x = (", ")", "\u00e9 = '\u00fc'"]
+TRAILERS = ["", "", "", " ", "   ", "\t", " \t ", "  # c", "\x0c"]
+ENDINGS = ["\n", "\n", "\n", "\r\n", "\r", ""]
+
+
+def structured(rng):
+    # line-structured program text: templates x indentation x trailing blanks / tabs / comments x line endings
+    out = []
+    for _ in range(rng.randint(1, 14)):
+        out.append(rng.choice(["", "", "    ", "        ", "\t", "  "]) + rng.choice(LINE_TEMPLATES) + rng.choice(TRAILERS) + rng.choice(ENDINGS))
+    return "".join(out)
+
+
 def mutate(text, rng):
     toks = ALPHABET
     t = list(text)
     for _ in range(rng.randint(1, 4)):
         if not t:
             break
-        op = rng.randrange(3)
+        op = rng.randrange(4)
         i = rng.randrange(len(t))
+        if op == 3:
+            # trailing blanks at the end of a line
+            j = "".join(t).find("\n", i)
+            if j >= 0:
+                t[j:j] = list(rng.choice([" ", "   ", "\t", " \t"]))
+            continue
         if op == 0:
             del t[i : i + rng.randint(1, 3)]
         elif op == 1:
@@ -150,6 +173,7 @@ def gen_inputs(ctx):
         n = rng.randint(maxlen + 1, 12)
         longer.append("".join(rng.choice(ALPHABET) for _ in range(n)))
     groups["random_len%d..12" % (maxlen + 1)] = longer
+    groups["structured_lines"] = [structured(rng) for _ in range(3000 if ctx.quick else 100000)]
     files = []
     muts = []
     wins = []
